@@ -72,6 +72,8 @@ def emit_file(case, fi):
         lines.append("terminals")
         for name, text in f["terms"]:
             lines.append("%s: '%s';" % (name, text))
+        if fi == 0 and case.get("kw"):
+            lines.append("KEYWORD: /\\w+/;")
     return "\n".join(lines) + "\n"
 
 
@@ -208,7 +210,15 @@ class Flat:
             lines.append("terminals")
             for n, t in sorted(terms.items()):
                 lines.append("%s: '%s';" % (n, t))
-        return "\n".join(lines) + "\n", len(rules), len(terms), sorted(set(terms.values()))
+        kw = 0
+        if self.case.get("kw"):
+            # a KEYWORD terminal in the root file turns every word-like string terminal of the whole
+            # grammar, whichever file declares it, into a whole-word match
+            if not terms:
+                lines.append("terminals")
+            lines.append("KEYWORD: /\\w+/;")
+            kw = 1
+        return "\n".join(lines) + "\n", len(rules), len(terms) + kw, sorted(set(terms.values()))
 
 
 def d13(flat):
@@ -405,7 +415,7 @@ def run_case(case, ctx):
             elif is_d13:
                 ctx.known("D13", "lr-construction-differs", **info0)
             else:
-                ctx.fail("lr-construction-differs", modular=em, flattened=ef, **info0)
+                ctx.fail("lr-construction-differs", modular_lr=em, flattened_lr=ef, **info0)
         elif lm is not None:
             parsers.append(("LR", lm, lf, outcome_lr))
         nfiles = len(case["files"])
@@ -419,28 +429,31 @@ def run_case(case, ctx):
         if is_d13:
             ctx.label("override-target-reachable-by-two-paths (D13 class)")
         dead = set()
+        if case.get("kw"):
+            ctx.label("with-KEYWORD-in-the-root-file")
         for n in range(0, case["max_len"] + 1):
             for w in itertools.product(texts, repeat=n):
-                text = " ".join(w)
-                for who, pm, pf, oc in parsers:
-                    if who in dead:
-                        continue
-                    a, b = oc(pm, text), oc(pf, text)
-                    if "timeout" in (a[0], b[0]):
-                        dead.add(who)
-                        continue
-                    if a != b:
-                        if is_d19:
-                            ctx.known("D19", "modular-differs-from-flattened", parser=who, input=text, **info0)
+                # with a KEYWORD terminal also tokens glued together (whole-word matching must reject them)
+                for text in ([" ".join(w)] + (["".join(w), w[0] + " " + "".join(w[1:])] if case.get("kw") and n >= 2 else [])):
+                    for who, pm, pf, oc in parsers:
+                        if who in dead:
                             continue
-                        if is_d13:
-                            ctx.known("D13", "modular-differs-from-flattened", parser=who, input=text, **info0)
+                        a, b = oc(pm, text), oc(pf, text)
+                        if "timeout" in (a[0], b[0]):
+                            dead.add(who)
                             continue
-                        ctx.fail("modular-differs-from-flattened", parser=who, input=text, modular=repr(a)[:300],
-                                 flattened=repr(b)[:300], **info0)
-                ctx.label("inputs")
-                if interesting and n >= 1:
-                    ctx.nontrivial([files_txt, text], sample={"files": files_txt, "flattened": flat_text, "input": text})
+                        if a != b:
+                            if is_d19:
+                                ctx.known("D19", "modular-differs-from-flattened", parser=who, input=text, **info0)
+                                continue
+                            if is_d13:
+                                ctx.known("D13", "modular-differs-from-flattened", parser=who, input=text, **info0)
+                                continue
+                            ctx.fail("modular-differs-from-flattened", parser=who, input=text,
+                                     modular_outcome=repr(a)[:300], flattened_outcome=repr(b)[:300], **info0)
+                    ctx.label("inputs")
+                    if interesting and n >= 1:
+                        ctx.nontrivial([files_txt, text], sample={"files": files_txt, "flattened": flat_text, "input": text})
     finally:
         shutil.rmtree(tmp, ignore_errors=True)
 
@@ -525,7 +538,7 @@ def cases(draw):
                 files[fi]["rules"].append((tgt, [[draw(st.sampled_from(tn))], [tn[0], tn[0]]]))
     for f in files:
         del f["rule_names"]
-    return {"files": files, "shape": shape, "sugar": sugar,
+    return {"files": files, "shape": shape, "sugar": sugar, "kw": draw(st.integers(0, 2)) == 0,
             "max_len": (4 if tcount[0] <= 4 else 3) - (1 if sugar else 0)}
 
 
